@@ -319,10 +319,16 @@ def run(ctx):
         x = cls(base if npol == 2 else base[0], None if nz is None else (nz if npol == 2 else nz[0]))
         for arr in arrays(x):
             arr.flags.writeable = False
-        kind = ["float", "npscalar", "ndarray", "list"][(it // 5) % 4]
-        L = 1 if kind in ("float", "npscalar") or it % 2 else n
+        kind = ["float", "npscalar", "ndarray", "list", "np.float32", "np.int64", "np.int16", "np.uint8", "ndarray-float32", "tuple"][(it // 5 + it) % 10]
+        L = 1 if kind in ("float", "npscalar", "np.float32", "np.int64", "np.int16", "np.uint8") or it % 2 else n
         lit_vals = [rnd.randrange(-9, 10) / 2 for _ in range(L)]
-        lit = {"float": lambda: float(lit_vals[0]), "npscalar": lambda: np.float64(lit_vals[0]), "ndarray": lambda: np.array(lit_vals), "list": lambda: list(lit_vals)}[kind]()
+        if kind in ("np.int64", "np.int16"):
+            lit_vals = [float(rnd.randrange(-9, 10))]
+        if kind == "np.uint8":
+            lit_vals = [float(rnd.randrange(0, 10))]
+        lit = {"float": lambda: float(lit_vals[0]), "npscalar": lambda: np.float64(lit_vals[0]), "ndarray": lambda: np.array(lit_vals), "list": lambda: list(lit_vals),
+               "np.float32": lambda: np.float32(lit_vals[0]), "np.int64": lambda: np.array([int(lit_vals[0])])[0], "np.int16": lambda: np.int16(lit_vals[0]),
+               "np.uint8": lambda: np.uint8(lit_vals[0]), "ndarray-float32": lambda: np.array(lit_vals, dtype=np.float32), "tuple": lambda: tuple(lit_vals)}[kind]()
         op = ["add", "radd", "sub", "rsub"][it % 4]
         ev = {"kind": "op", "op": op, "a": half(x), "b": half(x), "blit": True, "lit": [[[int(round(2 * v)), 0] for v in lit_vals]], "sl": [[], [], []], "k": 0}
         try:
